@@ -163,6 +163,18 @@ def run(ctx):
                 kinds.add("node")
     rep.check(kinds == {"edge", "node"}, "C06.R3", "reachability:descend-on-nodes-and-edges", "Descend followed from node and edge attachments",
               "reachability follows Descend only from %s attachments" % sorted(kinds), site=crg.loc())
+    # every outgoing edge is probed for a Descend attachment, whether or not its target was already visited (a portal hanging off a
+    # back edge / parallel edge / self-loop still makes its child instance reachable)
+    ea = crg.call_sites(r"GraphStore::edge_attachment$")
+    edge_heads = [h for h in loop_heads(crg) if any(a.kind == "call" and a.key[0].endswith("GraphStore::edges_from") for a in ogc.of_operand(crg.blocks[h]["t"]["args"][0], deep=True))]
+    rep.check(len(edge_heads) == 1 and len(ea) >= 1, "C06.R3", "reachability:edge-loop", "edge loop and per-edge attachment probe found",
+              "edge loop heads=%d edge_attachment probes=%d" % (len(edge_heads), len(ea)), site=crg.loc())
+    for h in edge_heads:
+        re_ = result_edges(crg, h)
+        for (sw, tgt) in re_["some"]:
+            w = crg.path([tgt], [h], avoid_blocks=ea, avoid_edges=set(re_["none"]))
+            rep.check(w is None, "C06.R3", "reachability:every-edge-probed-for-descend", "no edge is skipped before its attachment is inspected",
+                      "an outgoing edge can be skipped without inspecting its attachment (%s): a child instance linked only through that edge drops out of the state root" % crg.describe_path(w), site=crg.loc())
     ef = crg.call_sites(r"GraphStore::edges_from$")
     rep.check(bool(ef), "C06.R3", "reachability:follows-edges", "BFS follows outgoing edges", "BFS no longer iterates edges_from", site=crg.loc())
     # ordered containers
